@@ -18,6 +18,7 @@ import BertE.Drv.C17
 import BertE.Drv.C18
 import BertE.Drv.C19
 import BertE.Drv.C20
+import BertE.Drv.Git
 /- One line in, one line out. The first word selects the model entry point. Core Lean only
    (nothing reachable from here imports Mathlib, so this links as a `lean_exe`). -/
 
@@ -43,6 +44,7 @@ def dispatch (line : String) : String :=
   | "C18" :: args => BertE.Drv.C18.handle args
   | "C19" :: args => BertE.Drv.C19.handle args
   | "C20" :: args => BertE.Drv.C20.handle args
+  | "GIT" :: args => BertE.Drv.Git.handle args
   | _ => "bad-op"
 
 partial def loop (h : IO.FS.Stream) (out : IO.FS.Stream) : IO Unit := do
